@@ -5,6 +5,8 @@ import Desert.Refs
 import Desert.Own
 import Desert.Evolution
 import Desert.DeclWF
+import Desert.AlignDiag
+import Desert.Normalize
 /-!
 Line-protocol driver: one request per line on stdin, one response per line on stdout.
 Executes the model's definitions (`enc`, `dec` through `runCtx` and `runAbs`, var-ints, …) so the
@@ -164,14 +166,14 @@ def step (env : Env) (line : String) : Env × String :=
   | some [.atom "hist", .atom wn, .atom rn, v] =>
     match env.find wn, env.find rn, valOfSexp v with
     | some (.record dw), some (.record dr), some val =>
-      let exp := match expectedRead dw dr val with
+      let exp := match expectedRead dw dr (normalize env (.named wn) val) with
         | .ok x => s!"ok {showVal x}"
         | .error e => s!"err {showErr e}"
       let op := match encodeTop env (.named wn) val with
         | .ok b => decResponse env (.named rn) b
         | .err e => s!"encerr {showErr e}"
         | .panic w => s!"encpanic {w}"
-      (env, s!"{exp} ## {op} ## {if onOneHistory dw dr then "one-history" else "NOT-one-history"}")
+      (env, s!"{exp} ## {op} ## {if onOneHistory dw dr then "one-history" else "NOT-one-history"} ## {alignmentClass dw dr}")
     | _, _, _ => (env, "bad-request hist")
   | some (.atom "src" :: .atom h :: ops) =>
     match bytesOfHex h with
